@@ -6,6 +6,7 @@ Select.  Built on the commutation lemmas of C04 and the merging lemmas of C05.
 import DafRel.Lemmas.Conform
 import DafRel.Lemmas.Commute
 import DafRel.Lemmas.NoTriv
+import DafRel.Lemmas.GoodLemmas
 
 namespace DafRel
 
@@ -88,41 +89,47 @@ theorem Slots.empty_sem (cols : Cols) (l : List Row) : ({} : Slots).sem cols l =
   simp [Slots.sem]
 
 
-/-- What a Select returned by `_append_unary_to_select` keeps of the given one's skip target: when it
-is a chain it is either the old skip target or the old chain with a projection pushed into both branches
-by the recursive `apply`. -/
-def SkipOK (st : Store) (fuel : Nat) (S S' : Rel) : Prop :=
-  ∀ l r c, S'.skipTo = .binary .chain l r c → S'.skipTo = S.skipTo ∨
-    ∃ pc l0 r0 c0 nl nr, S.skipTo = .binary .chain l0 r0 c0 ∧
-      applyOp st fuel (.u (.proj pc)) l0 {} = .ok nl ∧ applyOp st fuel (.u (.proj pc)) r0 {} = .ok nr ∧
-      l = nl.get l0 ∧ r = nr.get r0
+/-- The skip target of the Select returned by `_append_unary_to_select` is again a Good tree when the
+given Select is. -/
+def SkipOK (σ : Leaves) (S S' : Rel) : Prop :=
+  Good σ S → S.isSelect = true → Good σ S'.skipTo ∧ S'.skipTo.compOK true = true
 
-theorem skipOK_same (st : Store) (fuel : Nat) (S S' : Rel) (h : S'.skipTo = S.skipTo) : SkipOK st fuel S S' :=
-  fun _ _ _ _ => Or.inl h
+theorem skipOK_same (σ : Leaves) (S S' : Rel) (h : S'.skipTo = S.skipTo) : SkipOK σ S S' :=
+  fun g hs => by rw [h]; exact ⟨(g.selInv hs).2, g.shape hs⟩
 
-theorem skipOK_notChain (st : Store) (fuel : Nat) (S S' : Rel) (hc : isChain S'.skipTo = false) :
-    SkipOK st fuel S S' :=
-  fun l r c h => by rw [h] at hc; cases hc
+theorem skipOK_self (σ : Leaves) (S S' : Rel) (h : S'.skipTo = S) : SkipOK σ S S' :=
+  fun g hs => by rw [h]; exact ⟨g, g.compOK hs true⟩
 
-theorem skipOK_sel (st : Store) (fuel : Nat) (S S' X : Rel) (h : S'.skipTo = X) (hx : X.isSelect = true) :
-    SkipOK st fuel S S' :=
-  skipOK_notChain st fuel S S' (by rw [h]; exact not_chain_of_select X hx)
+/-- A sub-select over the same skip target. -/
+theorem skipOK_sub (σ : Leaves) (S S' r0 : Rel) (h : S'.skipTo = r0) (ok0 : SelOK σ r0) (hk0 : r0.skipTo = S.skipTo) :
+    SkipOK σ S S' :=
+  fun g hs => by
+    rw [h]
+    have g0 : Good σ r0 := Good.ofSel ok0 (by rw [hk0]; exact g.shape hs) (by rw [hk0]; exact (g.selInv hs).2)
+    exact ⟨g0, g0.compOK ok0.isSel true⟩
 
-theorem skipOK_nest (st : Store) (fuel : Nat) (S S' : Rel) (op : UOp) (res : Res) (hs : S.isSelect = true)
-    (hf : op.finishApply S = .ok res) (h : S'.skipTo = res.get S) : SkipOK st fuel S S' :=
-  skipOK_notChain st fuel S S' (by rw [h]; exact finishApply_select_not_chain op S hs res hf)
+theorem skipOK_nest (σ : Leaves) (S S' : Rel) (op : UOp) (res : Res) (hop : op.wfOn S.columns = true)
+    (hb : op.belowSlots = true)
+    (hf : op.finishApply S = .ok res) (h : S'.skipTo = res.get S) : SkipOK σ S S' :=
+  fun g hs => by
+    rw [h]
+    exact ⟨finishApply_good σ S op res g hop hf,
+      compOK_true_of_false _ (finishApply_compOK S op res hb (g.compOK hs false) hf)⟩
 
-theorem skipOK_after (st : Store) (fuel : Nat) (S S' : Rel) (res : Res)
-    (h : S'.skipTo = res.get S.skipTo) (hnc : ∀ k, res = .new k → isChain k = false) : SkipOK st fuel S S' := by
-  cases res with
-  | same => exact skipOK_same st fuel S S' h
-  | new k => exact skipOK_notChain st fuel S S' (by rw [h]; exact hnc k rfl)
+theorem skipOK_after (σ : Leaves) (S S' : Rel) (op : UOp) (res : Res) (hop : op.wfOn S.skipTo.columns = true)
+    (hb : op.belowSlots = true) (hnc : isChain S.skipTo = false)
+    (hf : op.finishApply S.skipTo = .ok res) (h : S'.skipTo = res.get S.skipTo) : SkipOK σ S S' :=
+  fun g hs => by
+    rw [h]
+    exact ⟨finishApply_good σ S.skipTo op res (g.selInv hs).2 hop hf,
+      compOK_true_of_false _ (finishApply_compOK S.skipTo op res hb
+        (compOK_false_of_not_chain _ (g.shape hs) hnc) hf)⟩
 
 /-- Nesting: the operation is applied on top of the Select, and the result is wrapped in a new
 Select with nothing recorded. -/
 theorem nest_sound (σ : Leaves) (op : UOp) (S : Rel) (hS : SelOK σ S) (hop : op.wfOn S.columns = true)
-    (inner : Res) (hi : op.finishApply S = .ok inner) (r : Rel) (h : applySkip (inner.get S) {} = .ok r)
-    (st : Store) (fuel : Nat) : AppendOK σ op S r ∧ SkipOK st fuel S r := by
+    (hbs : op.belowSlots = true) (inner : Res) (hi : op.finishApply S = .ok inner) (r : Rel) (h : applySkip (inner.get S) {} = .ok r)
+    (st : Store) (fuel : Nat) : AppendOK σ op S r ∧ SkipOK σ S r := by
   have F := finishApply_sound σ S op hS.wf hS.truthful hop inner hi
   obtain ⟨ok, hk, hs⟩ := applySkip_selOK σ (inner.get S) {} r F.wf F.truthful (Slots.empty_wfOn _) (fun _ => rfl) h
   have hsem : sem σ r = sem σ (inner.get S) := by
@@ -130,7 +137,7 @@ theorem nest_sound (σ : Leaves) (op : UOp) (S : Rel) (hS : SelOK σ S) (hop : o
   have hcols : ∀ c, c ∈ r.columns ↔ c ∈ (inner.get S).columns := by
     intro c; rw [ok.cols c, hk, hs]; rfl
   exact ⟨⟨ok, by rw [hsem, F.sem_eq], fun c => (hcols c).trans (F.cols c), by rw [ok.engine, hk]; exact F.engine⟩,
-    skipOK_nest st fuel S r op inner hS.isSel hi hk⟩
+    skipOK_nest σ S r op inner hop hbs hi hk⟩
 
 /-! ### The rows at each stage of the slots -/
 
@@ -411,12 +418,13 @@ theorem sortThen_nil_left (ts : List SortTerm) : UOp.sortThen [] ts = ts := rfl
 /-- `_nest_unary_over_select`: the operation applied in a new outer query level; a Sort without a Slice
 moves to the outer level (it commutes with the operation). -/
 theorem nestOverSelect_sound (σ : Leaves) (op : UOp) (S : Rel) (hS : SelOK σ S) (hop : op.wfOn S.columns = true)
+    (hbs : op.belowSlots = true)
     (hsub : ∀ t, t ∈ S.columns → t ∈ op.appliedColumns S.columns)
     (hcomm : (UOp.sortCols S.slots.sort).subset S.columns = true → ∀ l : List Row, RowsHaveCols l S.columns →
       op.sem (op.appliedColumns S.columns) (isort (lexLe S.slots.sort) l) =
         isort (lexLe S.slots.sort) (op.sem (op.appliedColumns S.columns) l))
     (res : Res) (h : nestOverSelect op S = .ok res) (st : Store) (fuel : Nat) :
-    AppendOK σ op S (res.get S) ∧ SkipOK st fuel S (res.get S) := by
+    AppendOK σ op S (res.get S) ∧ SkipOK σ S (res.get S) := by
   unfold nestOverSelect at h
   by_cases hg : (S.slots.hasSort && !S.slots.hasSlice && (UOp.sortCols S.slots.sort).subset S.columns) = true
   · simp only [hg, if_true, bind, Except.bind, pure, Except.pure] at h
@@ -465,7 +473,12 @@ theorem nestOverSelect_sound (σ : Leaves) (op : UOp) (S : Rel) (hS : SelOK σ S
             (fun hc => by rw [hnc] at hc) ha
           have hrows0 : RowsHaveCols (sem σ r0) S.columns := fun x hx => (ok0.rows x hx).congr hc0
           simp only [Res.get]
-          refine ⟨⟨ok, ?_, ?_, ?_⟩, skipOK_notChain st fuel S r (by rw [hk]; exact hnc)⟩
+          refine ⟨⟨ok, ?_, ?_, ?_⟩, fun g hs => by
+            rw [hk]
+            have g0 : Good σ r0 :=
+              Good.ofSel ok0 (by rw [hk0]; exact g.shape hs) (by rw [hk0]; exact (g.selInv hs).2)
+            exact ⟨finishApply_good σ r0 op inner g0 hop0 hi,
+              compOK_true_of_false _ (finishApply_compOK r0 op inner hbs (g0.compOK ok0.isSel false) hi)⟩⟩
           · rw [ok.sem_eq, hk, hs, Slots.sem_sortOnly, F.sem_eq, hsemS, hcomm hsc _ hrows0]
             rw [UOp.sem_congr op _ _ happl]
           · intro c
@@ -482,18 +495,18 @@ theorem nestOverSelect_sound (σ : Leaves) (op : UOp) (S : Rel) (hS : SelOK σ S
       | ok r =>
         simp only [ha] at h
         injection h with h; subst h
-        exact nest_sound σ _ S hS hop inner hi r ha st fuel
+        exact nest_sound σ _ S hS hop hbs inner hi r ha st fuel
 
 /-- `Selection` appended to a Select. -/
 theorem append_sel_sound (σ : Leaves) (st : Store) (fuel : Nat) (p : Pred) (S : Rel) (res : Res)
     (hS : SelOK σ S) (hop : (UOp.sel p).wfOn S.columns = true)
     (hnc : ∀ k, (UOp.sel p).finishApply S.skipTo = .ok (.new k) → isChain k = false)
     (h : appendUnarySel st (fuel+1) (.u (.sel p)) S = .ok res) :
-    AppendOK σ (.sel p) S (res.get S) ∧ SkipOK st fuel S (res.get S) := by
+    AppendOK σ (.sel p) S (res.get S) ∧ SkipOK σ S (res.get S) := by
   rw [appendUnarySel] at h
   by_cases hb : (S.slots.hasSlice || S.isCompound) = true
   · simp only [hb, if_true] at h
-    refine nestOverSelect_sound σ (.sel p) S hS hop (fun _ h => h) ?_ res h st fuel
+    refine nestOverSelect_sound σ (.sel p) S hS hop rfl (fun _ h => h) ?_ res h st fuel
     intro _ l _
     simp only [UOp.sem]
     exact filter_isort (lexLe_total _) (lexLe_trans _) _ l
@@ -511,7 +524,7 @@ theorem append_sel_sound (σ : Leaves) (st : Store) (fuel : Nat) (p : Pred) (S :
       (fun hc => by rw [hcomp] at hc; cases hc) h
     have hcols : ∀ x, x ∈ (res.get S).skipTo.columns ↔ x ∈ S.skipTo.columns := F.cols
     simp only [Option.getD] at hs
-    refine ⟨⟨ok, ?_, ?_, by rw [ok.engine, F.engine]; exact hS.engine.symm⟩, skipOK_after st fuel S _ inner hki (fun k hk' => hnc k (by rw [hfi, hk']))⟩
+    refine ⟨⟨ok, ?_, ?_, by rw [ok.engine, F.engine]; exact hS.engine.symm⟩, skipOK_after σ S _ (.sel p) inner hop' rfl hcomp hfi hki⟩
     · rw [ok.sem_eq, hs, Slots.sem_congr _ _ _ hcols, F.sem_eq, hS.sem_eq]
       exact slots_sel S.slots S.skipTo.columns p _ hS.skipRows hS.slotsWF hreq hb.1
     · intro c
@@ -526,7 +539,7 @@ namespace DafRel
 theorem append_slice_sound (σ : Leaves) (st : Store) (fuel : Nat) (a : Nat) (b : Option Nat) (S : Rel) (res : Res)
     (hS : SelOK σ S)
     (h : appendUnarySel st (fuel+1) (.u (.slice a b)) S = .ok res) :
-    AppendOK σ (.slice a b) S (res.get S) ∧ SkipOK st fuel S (res.get S) := by
+    AppendOK σ (.slice a b) S (res.get S) ∧ SkipOK σ S (res.get S) := by
   rw [appendUnarySel] at h
   cases hm : UOp.sliceThen S.slots.sliceStart S.slots.sliceStop a b with
   | error e => simp [hm] at h
@@ -539,7 +552,7 @@ theorem append_slice_sound (σ : Leaves) (st : Store) (fuel : Nat) (a : Nat) (b 
         (fun hc => hS.compoundProj (by rw [hS.compound]; exact hc)) h
       subst hr
       simp only [Res.get]
-      refine ⟨⟨ok, ?_, ?_, by rw [ok.engine, hk]; exact hS.engine.symm⟩, skipOK_same st fuel S _ hk⟩
+      refine ⟨⟨ok, ?_, ?_, by rw [ok.engine, hk]; exact hS.engine.symm⟩, skipOK_same σ S _ hk⟩
       · rw [ok.sem_eq, hs, hk, hS.sem_eq]
         exact slots_slice S.slots S.skipTo.columns a b a' b' _ hm
       · intro c
@@ -583,13 +596,13 @@ theorem slots_dedup_add (sl : Slots) (cols : Cols) (l : List Row) (hd : sl.dedup
 theorem append_dedup_sound (σ : Leaves) (st : Store) (fuel : Nat) (S : Rel) (res : Res)
     (hS : SelOK σ S)
     (h : appendUnarySel st (fuel+1) (.u .dedup) S = .ok res) :
-    AppendOK σ .dedup S (res.get S) ∧ SkipOK st fuel S (res.get S) := by
+    AppendOK σ .dedup S (res.get S) ∧ SkipOK σ S (res.get S) := by
   rw [appendUnarySel] at h
   have hcc : ∀ x, x ∈ UOp.dedup.appliedColumns S.columns ↔ x ∈ S.slots.columns S.skipTo.columns := hS.cols
   by_cases hd : S.slots.dedup = true
   · simp only [hd, Bool.not_true, Bool.false_eq_true, if_false] at h
     injection h with h; subst h
-    refine ⟨⟨hS, ?_, fun _ => Iff.rfl, rfl⟩, skipOK_same st fuel S _ rfl⟩
+    refine ⟨⟨hS, ?_, fun _ => Iff.rfl, rfl⟩, skipOK_same σ S _ rfl⟩
     simp only [Res.get, UOp.sem]
     rw [firstOcc_congr _ _ hcc, hS.sem_eq]
     exact (slots_dedup_same _ _ _ hd).symm
@@ -605,7 +618,7 @@ theorem append_dedup_sound (σ : Leaves) (st : Store) (fuel : Nat) (S : Rel) (re
         obtain ⟨ok, hk, hs⟩ := applySkip_selOK σ S { dedup := true } r hS.wf hS.truthful (Slots.empty_wfOn _)
           (fun _ => rfl) ha
         simp only [Res.get]
-        refine ⟨⟨ok, ?_, ?_, by rw [ok.engine, hk]⟩, skipOK_sel st fuel S _ S hk hS.isSel⟩
+        refine ⟨⟨ok, ?_, ?_, by rw [ok.engine, hk]⟩, skipOK_self σ S _ hk⟩
         · rw [ok.sem_eq, hk, hs]; rfl
         · intro c; rw [ok.cols c, hk, hs]; rfl
     · simp only [hsl, Bool.false_eq_true, if_false] at h
@@ -615,7 +628,7 @@ theorem append_dedup_sound (σ : Leaves) (st : Store) (fuel : Nat) (S : Rel) (re
         (fun hc => hS.compoundProj (by rw [hS.compound]; exact hc)) h
       subst hr
       simp only [Res.get]
-      refine ⟨⟨ok, ?_, ?_, by rw [ok.engine, hk]; exact hS.engine.symm⟩, skipOK_same st fuel S _ hk⟩
+      refine ⟨⟨ok, ?_, ?_, by rw [ok.engine, hk]; exact hS.engine.symm⟩, skipOK_same σ S _ hk⟩
       · rw [ok.sem_eq, hs, hk, slots_dedup_add _ _ _ hd hsl, ← hS.sem_eq]
         exact (firstOcc_congr _ _ hcc _).symm
       · intro c
@@ -632,7 +645,7 @@ namespace DafRel
 theorem append_sort_sound (σ : Leaves) (st : Store) (fuel : Nat) (ts : List SortTerm) (S : Rel) (res : Res)
     (hS : SelOK σ S) (hop : (UOp.sort ts).wfOn S.columns = true)
     (h : appendUnarySel st (fuel+1) (.u (.sort ts)) S = .ok res) :
-    AppendOK σ (.sort ts) S (res.get S) ∧ SkipOK st fuel S (res.get S) := by
+    AppendOK σ (.sort ts) S (res.get S) ∧ SkipOK σ S (res.get S) := by
   rw [appendUnarySel] at h
   have hts : (UOp.sortCols ts).subset S.columns = true := by
     simpa [UOp.wfOn, UOp.columnsRequired] using hop
@@ -650,7 +663,7 @@ theorem append_sort_sound (σ : Leaves) (st : Store) (fuel : Nat) (ts : List Sor
       obtain ⟨ok, hk, hs⟩ := applySkip_selOK σ S { sort := ts } r hS.wf hS.truthful
         ⟨hts, fun c hc => by cases hc⟩ (fun _ => rfl) ha
       simp only [Res.get]
-      refine ⟨⟨ok, ?_, ?_, by rw [ok.engine, hk]⟩, skipOK_sel st fuel S _ S hk hS.isSel⟩
+      refine ⟨⟨ok, ?_, ?_, by rw [ok.engine, hk]⟩, skipOK_self σ S _ hk⟩
       · rw [ok.sem_eq, hk, hs]
         simp only [Slots.sem, sortIf]
         rfl
@@ -690,7 +703,7 @@ theorem append_sort_sound (σ : Leaves) (st : Store) (fuel : Nat) (ts : List Sor
             · exact (Cols.subset_iff _ _).mpr fun t ht => (hc0 t).mpr ((Cols.subset_iff _ _).mp hts'' t ht)
           obtain ⟨ok, hk, hs⟩ := applySkip_selOK σ r0 _ r ok0.wf ok0.truthful hwn (fun _ => rfl) ha
           simp only [Res.get]
-          refine ⟨⟨ok, ?_, ?_, by rw [ok.engine, hk, ok0.engine, hk0]; exact hS.engine.symm⟩, skipOK_sel st fuel S _ r0 hk ok0.isSel⟩
+          refine ⟨⟨ok, ?_, ?_, by rw [ok.engine, hk, ok0.engine, hk0]; exact hS.engine.symm⟩, skipOK_sub σ S _ r0 hk ok0 hk0⟩
           · rw [ok.sem_eq, hk, hs, ok0.sem_eq, hs0, hk0, hS.sem_eq]
             rw [Slots.sem_sortOnly, Slots.sem_simple S.slots _ _ hpn hsl,
               Slots.sem_simple ({ S.slots with sort := [] } : Slots) _ _ hpn hsl]
@@ -710,7 +723,7 @@ theorem append_sort_sound (σ : Leaves) (st : Store) (fuel : Nat) (ts : List Sor
       obtain ⟨r, hr, ok, hk, hs⟩ := reapplySkip_kw σ S _ res hS hw hcp h
       subst hr
       simp only [Res.get]
-      refine ⟨⟨ok, ?_, ?_, by rw [ok.engine, hk]; exact hS.engine.symm⟩, skipOK_same st fuel S _ hk⟩
+      refine ⟨⟨ok, ?_, ?_, by rw [ok.engine, hk]; exact hS.engine.symm⟩, skipOK_same σ S _ hk⟩
       · rw [ok.sem_eq, hs, hk, hS.sem_eq]
         exact slots_sort S.slots S.skipTo.columns ts _ hS.skipRows hS.slotsWF hts' hsl
       · intro c
@@ -822,11 +835,11 @@ namespace DafRel
 theorem append_calc_sound (σ : Leaves) (st : Store) (fuel : Nat) (tag : Tag) (e : Expr) (S : Rel) (res : Res)
     (hS : SelOK σ S) (hop : (UOp.calc tag e).wfOn S.columns = true)
     (h : appendUnarySel st (fuel+1) (.u (.calc tag e)) S = .ok res) :
-    AppendOK σ (.calc tag e) S (res.get S) ∧ SkipOK st fuel S (res.get S) := by
+    AppendOK σ (.calc tag e) S (res.get S) ∧ SkipOK σ S (res.get S) := by
   rw [appendUnarySel] at h
   by_cases hb : (S.isCompound || decide (tag ∈ S.skipTo.columns)) = true
   · simp only [hb, if_true] at h
-    refine nestOverSelect_sound σ (.calc tag e) S hS hop
+    refine nestOverSelect_sound σ (.calc tag e) S hS hop rfl
       (fun t ht => (Cols.mem_insert _ _ _).mpr (Or.inl ht)) ?_ res h st fuel
     intro hsc l _
     simp only [UOp.sem]
@@ -880,8 +893,7 @@ theorem append_calc_sound (σ : Leaves) (st : Store) (fuel : Nat) (tag : Tag) (e
         (fun hc => by rw [hchain] at hc; cases hc) h
       simp only [Option.getD] at hs
       have hcols : ∀ x, x ∈ (res.get S).skipTo.columns ↔ x ∈ S.skipTo.columns.insert tag := F.cols
-      refine ⟨⟨ok, ?_, ?_, by rw [ok.engine, F.engine]; exact hS.engine.symm⟩, skipOK_after st fuel S _ inner hki
-        (fun k hk' => finishApply_calc_not_chain tag e _ k (by rw [hfi, hk']))⟩
+      refine ⟨⟨ok, ?_, ?_, by rw [ok.engine, F.engine]; exact hS.engine.symm⟩, skipOK_after σ S _ (.calc tag e) inner hop' rfl hchain hfi hki⟩
       · rw [ok.sem_eq, hs, Slots.sem_congr _ _ _ hcols, F.sem_eq, hS.sem_eq]
         apply slots_calc S.slots ({ S.slots with proj := some (S.columns.insert tag) } : Slots)
           S.skipTo.columns tag e _ hS.skipRows hS.slotsWF htag hreq rfl rfl rfl rfl
@@ -901,8 +913,7 @@ theorem append_calc_sound (σ : Leaves) (st : Store) (fuel : Nat) (tag : Tag) (e
         (fun hc => by rw [hchain] at hc; cases hc) h
       simp only [Option.getD] at hs
       have hcols : ∀ x, x ∈ (res.get S).skipTo.columns ↔ x ∈ S.skipTo.columns.insert tag := F.cols
-      refine ⟨⟨ok, ?_, ?_, by rw [ok.engine, F.engine]; exact hS.engine.symm⟩, skipOK_after st fuel S _ inner hki
-        (fun k hk' => finishApply_calc_not_chain tag e _ k (by rw [hfi, hk']))⟩
+      refine ⟨⟨ok, ?_, ?_, by rw [ok.engine, F.engine]; exact hS.engine.symm⟩, skipOK_after σ S _ (.calc tag e) inner hop' rfl hchain hfi hki⟩
       · rw [ok.sem_eq, hs, Slots.sem_congr _ _ _ hcols, F.sem_eq, hS.sem_eq]
         apply slots_calc S.slots S.slots S.skipTo.columns tag e _ hS.skipRows hS.slotsWF htag hreq rfl rfl rfl rfl
         simp only [hpn]
@@ -1001,7 +1012,7 @@ theorem proj_nest_sound (σ : Leaves) (S : Rel) (c : Cols) (hS : SelOK σ S) (hc
     (r : Rel)
     (hr : applySkip (sub.get S)
       ({ sort := S.slots.sort, proj := some c, sliceStart := S.slots.sliceStart, sliceStop := S.slots.sliceStop } : Slots)
-        = .ok r) (st : Store) (fuel : Nat) : AppendOK σ (.proj c) S r ∧ SkipOK st fuel S r := by
+        = .ok r) (st : Store) (fuel : Nat) : AppendOK σ (.proj c) S r ∧ SkipOK σ S r := by
   have hcp : isChain S.skipTo = true → S.slots.proj = none :=
     fun hc => hS.compoundProj (by rw [hS.compound]; exact hc)
   have hw : ({ S.slots with sort := [], sliceStart := 0, sliceStop := none } : Slots).wfOn S.skipTo.columns :=
@@ -1027,7 +1038,7 @@ theorem proj_nest_sound (σ : Leaves) (S : Rel) (c : Cols) (hS : SelOK σ S) (hc
       rw [this] at h; cases h) hr
   have hsort' : (UOp.sortCols S.slots.sort).subset (S.slots.columns S.skipTo.columns) = true :=
     (Cols.subset_iff _ _).mpr fun t ht => (hS.cols t).mp ((Cols.subset_iff _ _).mp hsort t ht)
-  refine ⟨⟨ok, ?_, ?_, by rw [ok.engine, hk, ok0.engine, hk0]; exact hS.engine.symm⟩, skipOK_sel st fuel S _ r0 hk ok0.isSel⟩
+  refine ⟨⟨ok, ?_, ?_, by rw [ok.engine, hk, ok0.engine, hk0]; exact hS.engine.symm⟩, skipOK_sub σ S _ r0 hk ok0 hk0⟩
   · rw [ok.sem_eq, hk, hs, ok0.sem_eq, hs0, hk0, hS.sem_eq]
     exact slots_proj_nest S.slots S.skipTo.columns _ c _ hS.skipRows hS.slotsWF hsort'
   · intro x
@@ -1055,9 +1066,10 @@ tree-building recursion). -/
 theorem append_proj_sound (σ : Leaves) (st : Store) (fuel : Nat) (c : Cols) (S : Rel) (res : Res)
     (hS : SelOK σ S) (hop : (UOp.proj c).wfOn S.columns = true)
     (hpush : ∀ l r cc, S.skipTo = .binary .chain l r cc → ∀ x res', (x = l ∨ x = r) →
-      applyOp st fuel (.u (.proj c)) x {} = .ok res' → FinishOK σ (.proj c) x (res'.get x))
+      applyOp st fuel (.u (.proj c)) x {} = .ok res' →
+      Good σ (res'.get x) ∧ FinishOK σ (.proj c) x (res'.get x) ∧ (res'.get x).isSelect = true)
     (h : appendUnarySel st (fuel+1) (.u (.proj c)) S = .ok res) :
-    AppendOK σ (.proj c) S (res.get S) ∧ SkipOK st fuel S (res.get S) := by
+    AppendOK σ (.proj c) S (res.get S) ∧ SkipOK σ S (res.get S) := by
   rw [appendUnarySel] at h
   have hc : c.subset S.columns = true := by simpa [UOp.wfOn, UOp.columnsRequired] using hop
   have hcp : isChain S.skipTo = true → S.slots.proj = none :=
@@ -1094,7 +1106,7 @@ theorem append_proj_sound (σ : Leaves) (st : Store) (fuel : Nat) (c : Cols) (S 
           obtain ⟨ok, hk, hs⟩ := applySkip_selOK σ S _ r hS.wf hS.truthful hw
             (fun h => by rw [hns] at h; cases h) ha
           simp only [Res.get]
-          refine ⟨⟨ok, ?_, ?_, by rw [ok.engine, hk]⟩, skipOK_sel st fuel S _ S hk hS.isSel⟩
+          refine ⟨⟨ok, ?_, ?_, by rw [ok.engine, hk]⟩, skipOK_self σ S _ hk⟩
           · rw [ok.sem_eq, hk, hs]
             simp [Slots.sem, UOp.sem]
           · intro x; rw [ok.cols x, hs]; rfl
@@ -1105,7 +1117,7 @@ theorem append_proj_sound (σ : Leaves) (st : Store) (fuel : Nat) (c : Cols) (S 
     have hcsl : ∀ t, t ∈ c → t ∈ S.slots.columns S.skipTo.columns :=
       fun t ht => (hS.cols t).mp ((Cols.subset_iff _ _).mp hc t ht)
     have plain : ∀ res, reapplySkip S none none (some ({ S.slots with proj := some c } : Slots)) = .ok res →
-        isChain S.skipTo = false → AppendOK σ (.proj c) S (res.get S) ∧ SkipOK st fuel S (res.get S) := by
+        isChain S.skipTo = false → AppendOK σ (.proj c) S (res.get S) ∧ SkipOK σ S (res.get S) := by
       intro res h hnc
       have hw : ({ S.slots with proj := some c } : Slots).wfOn S.skipTo.columns := by
         refine ⟨hS.slotsWF.1, ?_⟩
@@ -1116,7 +1128,7 @@ theorem append_proj_sound (σ : Leaves) (st : Store) (fuel : Nat) (c : Cols) (S 
       obtain ⟨r, hr, ok, hk, hs⟩ := reapplySkip_kw σ S _ res hS hw (fun h => by rw [hnc] at h; cases h) h
       subst hr
       simp only [Res.get]
-      refine ⟨⟨ok, ?_, ?_, by rw [ok.engine, hk]; exact hS.engine.symm⟩, skipOK_same st fuel S _ hk⟩
+      refine ⟨⟨ok, ?_, ?_, by rw [ok.engine, hk]; exact hS.engine.symm⟩, skipOK_same σ S _ hk⟩
       · rw [ok.sem_eq, hs, hk, hS.sem_eq]
         exact slots_proj S.slots S.skipTo.columns c _ hd hcsl
       · intro x; rw [ok.cols x, hs]; rfl
@@ -1138,8 +1150,8 @@ theorem append_proj_sound (σ : Leaves) (st : Store) (fuel : Nat) (c : Cols) (S 
             | error e => simp [hl, hr] at h
             | ok nr =>
               simp only [hl, hr] at h
-              have Fl := hpush l r cc hk l nl (Or.inl rfl) hl
-              have Fr := hpush l r cc hk r nr (Or.inr rfl) hr
+              obtain ⟨Gl, Fl, sl⟩ := hpush l r cc hk l nl (Or.inl rfl) hl
+              obtain ⟨Gr, Fr, sr⟩ := hpush l r cc hk r nr (Or.inr rfl) hr
               -- the new skip target
               have hwfk : (Rel.binary .chain (nl.get l) (nr.get r) (nl.get l).columns).WF :=
                 ⟨Fl.wf, Fr.wf, rfl, fun t => (Fl.cols t).trans (Fr.cols t).symm⟩
@@ -1155,8 +1167,9 @@ theorem append_proj_sound (σ : Leaves) (st : Store) (fuel : Nat) (c : Cols) (S 
                     fun c1 hc1 => by cases hc1⟩
                 obtain ⟨ok, hk1, hs⟩ := applySkip_selOK σ _ _ r1 hwfk htrk hw (fun _ => rfl) ha
                 simp only [Res.get]
-                refine ⟨⟨ok, ?_, ?_, by rw [ok.engine, hk1, hS.engine, hk]; exact Fl.engine⟩, fun l' r' c' he => Or.inr ⟨c, l, r, cc, nl, nr, hk, hl, hr, by
-                    rw [hk1] at he; injection he with _ h1 h2 _; exact ⟨h1.symm, h2.symm⟩⟩⟩
+                refine ⟨⟨ok, ?_, ?_, by rw [ok.engine, hk1, hS.engine, hk]; exact Fl.engine⟩, fun _ _ => by
+                  rw [hk1]
+                  exact ⟨Good.chain _ _ _ Gl Gr hwfk, by simp [Rel.compOK, sl, sr, Gl.compOK sl false, Gr.compOK sr false]⟩⟩
                 · rw [ok.sem_eq, hk1, hs, hS.sem_eq, hk]
                   have hsem : sem σ (Rel.binary .chain (nl.get l) (nr.get r) (nl.get l).columns) =
                       (sem σ (Rel.binary .chain l r cc)).map (fun r => r.restrict c) := by
@@ -1199,16 +1212,17 @@ tree-building recursion in `ConformSound`). -/
 theorem appendUnarySel_sound (σ : Leaves) (st : Store) (fuel : Nat) (op : UOp) (S : Rel) (res : Res)
     (hS : SelOK σ S) (hop : op.wfOn S.columns = true)
     (hpush : ∀ c, op = .proj c → ∀ l r cc, S.skipTo = .binary .chain l r cc → ∀ x res', (x = l ∨ x = r) →
-      applyOp st fuel (.u (.proj c)) x {} = .ok res' → FinishOK σ (.proj c) x (res'.get x))
+      applyOp st fuel (.u (.proj c)) x {} = .ok res' →
+      Good σ (res'.get x) ∧ FinishOK σ (.proj c) x (res'.get x) ∧ (res'.get x).isSelect = true)
     (h : appendUnarySel st (fuel+1) (.u op) S = .ok res) :
-    AppendOK σ op S (res.get S) ∧ SkipOK st fuel S (res.get S) := by
+    AppendOK σ op S (res.get S) ∧ SkipOK σ S (res.get S) := by
   cases op with
   | «calc» tag e => exact append_calc_sound σ st fuel tag e S res hS hop h
   | dedup => exact append_dedup_sound σ st fuel S res hS h
   | identity =>
     rw [appendUnarySel] at h
     injection h with h; subst h
-    exact ⟨⟨hS, rfl, fun _ => Iff.rfl, rfl⟩, skipOK_same st fuel S _ rfl⟩
+    exact ⟨⟨hS, rfl, fun _ => Iff.rfl, rfl⟩, skipOK_same σ S _ rfl⟩
   | proj c => exact append_proj_sound σ st fuel c S res hS hop (hpush c rfl) h
   | sel p => exact append_sel_sound σ st fuel p S res hS hop (fun k hk => sel_finish_not_chain _ p k hk) h
   | slice a b => exact append_slice_sound σ st fuel a b S res hS h
